@@ -59,4 +59,5 @@ def jobs(tier):
     return (eval_jobs(tier) +
             common.add_samples_jobs(tier, ['C03'], blobs=(None, 'scalar'),
                                     vectorized=(False, True)) +
-            common.add_bound_jobs(tier, ['C03'], blobs=(None, 'scalar')))
+            common.add_bound_jobs(tier, ['C03'], blobs=(None, 'scalar')) +
+            common.run_jobs(tier, ['C03'], which=('end', 'empty')))
